@@ -26,7 +26,9 @@ use sciparse::{
             types::{HopFieldFlags, HopFieldMac, InfoFieldFlags},
             view::StandardPathView,
         },
-        view::{ScionDpPathView, ScionDpPathViewExt, ScionDpPathViewRef},
+        model::DpPath,
+        types::PathType,
+        view::{ScionDpPathView, ScionDpPathViewExt, ScionDpPathViewExtMut, ScionDpPathViewRef},
     },
     identifier::isd_asn::IsdAsn,
     path::ScionPath,
@@ -467,6 +469,9 @@ fn c12_std(cx: &mut Ctx, b: &[u8], kind: &str) {
             _ => cx.spec("agree:roundtrip-model", "from_view(encode(m)) != m".into(), line.clone()),
         }
         c12_agree(cx, &m, &enc, &line);
+        if let Ok(Ok((v, _))) = catch(|| StandardPathView::try_from_slice(b).map(|(v, r)| (v.to_boxed(), r.len()))) {
+            c12_dppath(cx, &ScionDpPathView::Standard(v), "standard", &line);
+        }
     } else if er == "panic" {
         cx.spec("panic", "try_encode_to_vec panicked".into(), line.clone());
     }
@@ -603,6 +608,19 @@ fn c12_agree(cx: &mut Ctx, m: &StandardPath, enc: &[u8], line: &str) {
     }
 }
 
+/// empty and unsupported data-plane paths (path type `t`, raw bytes)
+fn c12_dp_other(cx: &mut Ctx, t: u8, b: &[u8]) {
+    let line = format!("dp {t} {}", hex(b));
+    let v = match PathType::from(t) {
+        PathType::Empty => ScionDpPathView::Empty,
+        PathType::Scion | PathType::OneHop => return,
+        pt => ScionDpPathView::Unsupported { path_type: pt, data: b.to_vec().into_boxed_slice() },
+    };
+    let kind = if t == 0 { "empty" } else { "unsupported" };
+    c12_dppath(cx, &v, kind, &line);
+    cx.rep.case(&line, true);
+}
+
 fn c12_onehop(cx: &mut Ctx, b: &[u8]) {
     let line = format!("oh {}", hex(b));
     let r = catch(|| OneHopPathView::try_from_slice(b).map(|(v, _)| v.clone()));
@@ -633,6 +651,21 @@ fn c12_onehop(cx: &mut Ctx, b: &[u8]) {
         cx.spec("panic", "OneHopPathView::try_reverse panicked".into(), line.clone());
     } else if !ok && c.as_slice() != b {
         cx.spec("fail-atomic:onehop-view-reverse", "OneHopPathView::try_reverse Err modified the path".into(), line.clone());
+    } else if ok {
+        // reversal is its own inverse
+        let mut c2 = c.clone();
+        let ok2 = catch(|| c2.try_reverse().is_ok()).unwrap_or(false);
+        if !ok2 || c2.as_slice() != b {
+            cx.spec(
+                "reverse-involutive:onehop",
+                format!(
+                    "OneHopPathView::try_reverse twice does not restore the path (second call ok={ok2}; first hop cons_ingress {}, second hop cons_ingress {})",
+                    u16::from_be_bytes([b[10], b[11]]),
+                    u16::from_be_bytes([b[22], b[23]])
+                ),
+                line.clone(),
+            );
+        }
     }
     // model reverse and agreement
     let m: OneHopPath = v.to_model();
@@ -661,6 +694,20 @@ fn c12_onehop(cx: &mut Ctx, b: &[u8]) {
                 }
             }
         }
+    }
+    // data-plane-path level: DpPath::OneHop vs ScionDpPathView::OneHop
+    {
+        let dm = catch(|| m.clone().try_into_reversed_standard_path());
+        let txt = match dm {
+            Err(_) => "panic".to_string(),
+            Ok(Ok(sp)) => format!("ok {}", hex(&mhex(&sp))),
+            Ok(Err(_)) => "err".to_string(),
+        };
+        cx.cmp("onehop-into-reversed-standard", &format!("ohdprev {}", hex(b)), &txt);
+        if txt == "panic" {
+            cx.spec("panic", "OneHopPath::try_into_reversed_standard_path panicked".into(), line.clone());
+        }
+        c12_dppath(cx, &ScionDpPathView::OneHop(v.clone()), "onehop", &line);
     }
     // expiration (view only) must not panic
     let e = catch(|| v.expiration());
@@ -704,6 +751,125 @@ fn c12_onehop(cx: &mut Ctx, b: &[u8]) {
         }
     }
     cx.rep.case(&line, true);
+}
+
+/// canonical text of an owned data-plane path view: wire path type + bytes
+fn dpv_text(v: &ScionDpPathView) -> String {
+    let ty = match v {
+        ScionDpPathView::Standard(_) => u8::from(PathType::Scion),
+        ScionDpPathView::OneHop(_) => u8::from(PathType::OneHop),
+        ScionDpPathView::Empty => u8::from(PathType::Empty),
+        ScionDpPathView::Unsupported { path_type, .. } => u8::from(*path_type),
+    };
+    format!("t{ty} {}", hex(v.as_slice()))
+}
+
+/// C12, data-plane-path level (`DpPath::try_reverse` vs `ScionDpPathViewExtMut::try_reverse`, the entry points
+/// `ScionPath`, the stack and pocketscion call): atomicity of both, involution of the view, agreement
+/// `encode(reverse(model)) == reverse(encode(model))` including the wire path type.
+fn c12_dppath(cx: &mut Ctx, view: &ScionDpPathView, kind: &str, line: &str) {
+    cx.rep.hit(&format!("c12 dppath {kind}"));
+    let m: DpPath = match catch(|| view.to_model()) {
+        Ok(m) => m,
+        Err(_) => return cx.spec("panic", format!("DpPath::from_view panicked ({kind})"), line.into()),
+    };
+    // view side
+    let mut v1 = view.clone();
+    let vok = match catch(|| v1.try_reverse().is_ok()) {
+        Ok(ok) => ok,
+        Err(_) => return cx.spec("panic", format!("ScionDpPathView::try_reverse panicked ({kind})"), line.into()),
+    };
+    if !vok && v1 != *view {
+        cx.spec(&format!("fail-atomic:dppath-view-reverse:{kind}"), "ScionDpPathView::try_reverse returned Err but modified the path".into(), line.into());
+    }
+    if vok {
+        let mut v2 = v1.clone();
+        let ok2 = catch(|| v2.try_reverse().is_ok()).unwrap_or(false);
+        if !ok2 || v2 != *view {
+            cx.spec(
+                &format!("reverse-involutive:dppath-view:{kind}"),
+                format!("ScionDpPathView::try_reverse twice does not restore the path (second call ok={ok2}): {} -> {} -> {}", dpv_text(view), dpv_text(&v1), dpv_text(&v2)),
+                line.into(),
+            );
+        }
+    }
+    // model side
+    let mut m1 = m.clone();
+    let mok = match catch(|| m1.try_reverse().is_ok()) {
+        Ok(ok) => ok,
+        Err(_) => return cx.spec("panic", format!("DpPath::try_reverse panicked ({kind})"), line.into()),
+    };
+    if !mok && m1 != m {
+        cx.spec(&format!("fail-atomic:dppath-model-reverse:{kind}"), "DpPath::try_reverse returned Err but modified the model".into(), line.into());
+    }
+    // try_into_reversed: Err hands back the unchanged operand
+    match catch(|| m.clone().try_into_reversed()) {
+        Err(_) => cx.spec("panic", format!("DpPath::try_into_reversed panicked ({kind})"), line.into()),
+        Ok(Ok(r)) => {
+            if !mok || r != m1 {
+                cx.spec(&format!("agree:dppath-into-reversed:{kind}"), "DpPath::try_into_reversed differs from try_reverse".into(), line.into());
+            }
+        }
+        Ok(Err((orig, _))) => {
+            if mok || orig != m {
+                cx.spec(&format!("fail-atomic:dppath-model-reverse:{kind}"), "DpPath::try_into_reversed returned Err with a changed operand / where try_reverse succeeds".into(), line.into());
+            }
+        }
+    }
+    // agreement on models the encoder accepts
+    let enc0 = match catch(|| m.try_encode_to_owned_view()) {
+        Ok(Ok(e)) => e,
+        Ok(Err(_)) => return cx.rep.hit("c12 dppath model rejected by encoder"),
+        Err(_) => return cx.spec("panic", format!("DpPath::try_encode_to_owned_view panicked ({kind})"), line.into()),
+    };
+    cx.rep.hit(&format!("c12 dppath agreement checked {kind}"));
+    let mut ev = enc0.clone();
+    let evok = catch(|| ev.try_reverse().is_ok()).unwrap_or(false);
+    if evok != mok {
+        return cx.spec(
+            &format!("agree:dppath-reverse:{kind}"),
+            format!("DpPath::try_reverse ok={mok} but the view over its encoding reverses ok={evok} ({})", dpv_text(&enc0)),
+            line.into(),
+        );
+    }
+    if !mok {
+        return;
+    }
+    let em = match catch(|| m1.try_encode_to_owned_view()) {
+        Ok(Ok(e)) => e,
+        _ => {
+            return cx.spec(
+                &format!("agree:dppath-reverse:{kind}"),
+                "the encoder accepts the model but rejects (or panics on) its reversal while the view over the encoding reverses".into(),
+                line.into(),
+            )
+        }
+    };
+    if em == ev {
+        return;
+    }
+    // the two sides differ.  One documented divergence is classified separately: a one-hop *model* is turned
+    // into a two-hop standard path (same info field with CONS_DIR toggled, hop fields second, first; both
+    // pointers 0), the one-hop *view* stays a one-hop path with the hop fields swapped.
+    let documented = match (&ev, &m1) {
+        (ScionDpPathView::OneHop(rv), DpPath::Standard(sp)) => {
+            let r: sciparse::dataplane_path::onehop::model::OneHopPath = rv.to_model();
+            sp.current_hop_field == 0
+                && sp.current_info_field == 0
+                && sp.segments.len() == 1
+                && sp.segments[0].info_field == r.info
+                && sp.segments[0].hop_fields.len() == 2
+                && sp.segments[0].hop_fields[0] == r.hops[0]
+                && sp.segments[0].hop_fields[1] == r.hops[1]
+        }
+        _ => false,
+    };
+    let key = if documented { "agree:dppath-reverse:onehop-becomes-standard".to_string() } else { format!("agree:dppath-reverse:{kind}") };
+    cx.spec(
+        &key,
+        format!("encode(DpPath::try_reverse(m)) = {} but ScionDpPathView::try_reverse(encode(m)) = {}", dpv_text(&em), dpv_text(&ev)),
+        line.into(),
+    );
 }
 
 // ------------------------------------------------------------------------------------------------
@@ -1097,6 +1263,11 @@ fn run_line(cx: &mut Ctx, l: &str) {
                 c12_onehop(cx, &b);
             }
         }
+        ("C12", ["dp", t, h]) => {
+            if let (Ok(t), Some(b)) = (t.parse::<u8>(), unhex(h)) {
+                c12_dp_other(cx, t, &b);
+            }
+        }
         ("C12", ["model", h]) => {
             if let Some(m) = unhex(h).and_then(|b| parse_mhex(&b)) {
                 c12_model(cx, &m, true);
@@ -1271,6 +1442,7 @@ fn main_c12(cx: &mut Ctx, rng: &mut Rng, args: &Args) {
         m.current_info_field = if rng.chance(3, 4) && nseg > 0 { rng.below(nseg as u64) as u8 } else { rng.below(256) as u8 };
         c12_model(cx, &m, true);
     }
+    main_c12_dp(cx, rng);
     // one-hop paths
     for i in 0..args.scale(400, 8000) {
         let mut b = rng.bytes(32);
@@ -1286,12 +1458,33 @@ fn main_c12(cx: &mut Ctx, rng: &mut Rng, args: &Args) {
                 *x = 0; // placeholder second hop as created by OneHopPath::new
             }
         }
+        if i % 6 == 2 {
+            // as built by OneHopPath::new + set_second_hop: CONS_DIR, first hop without ingress, second without egress
+            b[0] = 1;
+            b[10] = 0;
+            b[11] = 0;
+            b[24] = 0;
+            b[25] = 0;
+            if b[22] == 0 && b[23] == 0 {
+                b[23] = 7;
+            }
+        }
         if i % 7 == 0 {
             b.truncate(rng.below(32) as usize);
         } else if i % 11 == 0 {
             b.extend_from_slice(&[0xee; 5]);
         }
         c12_onehop(cx, &b);
+    }
+}
+
+fn main_c12_dp(cx: &mut Ctx, rng: &mut Rng) {
+    c12_dp_other(cx, 0, &[]);
+    for t in [3u8, 4, 5, 200, 255] {
+        for n in [0usize, 4, 8, 40] {
+            let b = rng.bytes(n);
+            c12_dp_other(cx, t, &b);
+        }
     }
 }
 
